@@ -255,6 +255,77 @@ func init() {
 				}
 				x.Sample(func() string { return prog })
 			}},
+			{Name: "transform-values", Quick: []int{1, 2}, Run: func(c *explore.Chooser, x *explore.Ctx, nApps int) {
+				// transforms are values: bound to variables, composed with ~> in every order, then applied directly,
+				// through ~> and through $map - composing or applying one never changes how another one (or a later
+				// application of the same one) treats the caller's document
+				pats := []int{0, 1, 2}
+				upds := []int{1, 3}
+				mk := func() *ref.Transform {
+					p := c07Patterns[pats[c.Choose(len(pats))]]
+					u := c07Updates[upds[c.Choose(len(upds))]]
+					d := c07Deletes[c.Choose(2)]
+					t := &ref.Transform{Pattern: p.node(), Update: u.node()}
+					if d.node != nil {
+						t.Delete = d.node()
+					}
+					return t
+				}
+				t1, t2 := mk(), mk()
+				comp := c.Choose(4)
+				apps := make([]int, nApps)
+				for i := range apps {
+					apps[i] = c.Choose(6)
+				}
+				di := c.Choose(nd)
+				c.Done()
+				stmts := []ref.Node{rassign("t1", t1), rassign("t2", t2)}
+				switch comp {
+				case 0:
+					stmts = append(stmts, rassign("u", rvar("t1")))
+				case 1:
+					stmts = append(stmts, rassign("u", &ref.Apply{L: rvar("t2"), R: rvar("t1")}))
+				case 2:
+					stmts = append(stmts, rassign("u", &ref.Apply{L: rvar("t1"), R: rvar("t2")}))
+				default:
+					stmts = append(stmts, rassign("u", &ref.Apply{L: rvar("t1"), R: rvar("t1")}))
+				}
+				items := make([]ref.Node, nApps)
+				for i, a := range apps {
+					switch a {
+					case 0:
+						items[i] = rcall("t1", rvar(""))
+					case 1:
+						items[i] = rcall("t2", rvar(""))
+					case 2:
+						items[i] = rcall("u", rvar(""))
+					case 3:
+						items[i] = &ref.Apply{L: rvar(""), R: rvar("t1")}
+					case 4:
+						items[i] = &ref.Apply{L: rvar(""), R: rvar("u")}
+					default:
+						items[i] = rcall("map", rpath(rname("o")), rvar("t1"))
+					}
+				}
+				n := &ref.Paren{Exprs: append(stmts, rarr(items...))}
+				prog := ref.Text(n)
+				doc, _ := c07Doc(di)
+				want, werr := ref.Eval(n, impl.Clone(doc), ref.NewEnv(impl.Clone(doc)))
+				got := c07Frame(x, prog, di)
+				ok, checked := agrees(got, want, werr)
+				if checked {
+					x.Validated()
+				}
+				if !ok {
+					in := jsonText(doc)
+					x.Violation("value", "value:"+prog+"|"+in, explore.Detail{Program: prog, Input: in, Expected: predicted(want, werr), Observed: got.String()})
+				}
+				x.Outcome(got.Short())
+				if got.Kind == impl.Value {
+					x.Nontrivial()
+				}
+				x.Sample(func() string { return prog })
+			}},
 			{Name: "transform-escape", Quick: []int{1}, Run: func(c *explore.Chooser, x *explore.Ctx, _ int) {
 				pats := []string{"$$", "$$.a", "$$.o", "$v", "$v.a", "$w", "$$.**", "[$$, $]", "$$.o[k=1]"}
 				p := pats[c.Choose(len(pats))]
